@@ -5,7 +5,60 @@
 package ociauth
 
 // ---------------------------------------------------------------------------
-// Basic observers of Scope (used by callers in other packages; C09, C13, C10).
+// C09: scopes are finite sets of (type, resource, action).
+//
+// Strings are atoms with a total order here (only == and Compare occur), the
+// action masks are 8-bit vectors. `wf` is the representation invariant,
+// `holds` the set model read off the representation; the set laws of the
+// property are stated with `holds`.
+
+//@ pure func lessRS(a ResourceScope, b ResourceScope) bool =
+//@   a.ResourceType < b.ResourceType ||
+//@   (a.ResourceType == b.ResourceType && (a.Resource < b.Resource ||
+//@     (a.Resource == b.Resource && a.Action < b.Action)))
+
+//@ pure func wfRepos(s Scope) bool =
+//@   len(s.actions) == len(s.repositories) &&
+//@   (forall i, j int :: 0 <= i && i < j && j < len(s.repositories) ==> s.repositories[i] < s.repositories[j]) &&
+//@   (forall i int :: 0 <= i && i < len(s.actions) ==>
+//@       s.actions[i] != 0 && s.actions[i] & 249 == 0 && (s.repositories[i] == "" ==> s.actions[i] == 2))
+
+//@ pure func wfOthers(s Scope) bool =
+//@   (forall i, j int :: 0 <= i && i < j && j < len(s.others) ==> lessRS(s.others[i], s.others[j])) &&
+//@   (forall i int :: 0 <= i && i < len(s.others) ==> !s.others[i].isKnown())
+
+//@ pure func wf(s Scope) bool =
+//@   wfRepos(s) && wfOthers(s) && (s.unlimited ==> len(s.repositories) == 0 && len(s.others) == 0)
+
+// The set model.
+//@ pure func holdsCatalog(s Scope) bool =
+//@   exists i int :: 0 <= i && i < len(s.repositories) && s.repositories[i] == ""
+//@ pure func holdsRepo(s Scope, repo string, bit byte) bool =
+//@   exists i int :: 0 <= i && i < len(s.repositories) && s.repositories[i] == repo && s.actions[i] & bit != 0
+//@ pure func holdsOther(s Scope, r ResourceScope) bool =
+//@   exists i int :: 0 <= i && i < len(s.others) && s.others[i] == r
+// A known repository element: a named repository with pull or push. (A
+// repository scope with an empty name is an ordinary "other" element: it must
+// not be confused with the catalog scope, which the representation stores
+// under the empty name.)
+//@ pure func isRepoAction(r ResourceScope, action string) bool =
+//@   r.ResourceType == TypeRepository && r.Resource != "" && r.Action == action
+//@ pure func holds(s Scope, r ResourceScope) bool =
+//@   s.unlimited ||
+//@   (r == CatalogScope ? holdsCatalog(s) :
+//@    (isRepoAction(r, ActionPull) ? holdsRepo(s, r.Resource, 2) :
+//@     (isRepoAction(r, ActionPush) ? holdsRepo(s, r.Resource, 4) :
+//@      holdsOther(s, r))))
+
+//@ func (ResourceScope).Compare
+//@   strings atom
+//@   modifies nothing
+//@   ensures[total-order] result == (lessRS(rs1, rs2) ? 0 - 1 : (rs1 == rs2 ? 0 : 1))
+
+//@ func (ResourceScope).Equal
+//@   strings atom
+//@   modifies nothing
+//@   ensures result == (rs1 == rs2)
 
 //@ func (Scope).IsUnlimited
 //@   modifies nothing
@@ -15,14 +68,39 @@ package ociauth
 //@   modifies nothing
 //@   ensures result == (len(s.repositories) == 0 && len(s.others) == 0 && !s.unlimited)
 
-//@ func (Scope).Len
-//@   modifies nothing
-//@   requires !s.unlimited
-//@   ensures result >= 0
-
 //@ func UnlimitedScope
 //@   modifies nothing
-//@   ensures result.unlimited && len(result.repositories) == 0 && len(result.others) == 0
+//@   ensures result.unlimited && len(result.repositories) == 0 && len(result.others) == 0 && len(result.actions) == 0
+
+//@ func (Scope).Holds
+//@   strings atom
+//@   bytes bv
+//@   modifies nothing
+//@   requires wf(s)
+//@   ensures[unlimited-holds-everything] s.unlimited ==> result
+//@   ensures[catalog] !s.unlimited && r == CatalogScope ==> result == holdsCatalog(s)
+//@   ensures[repository-pull] !s.unlimited && r != CatalogScope && isRepoAction(r, ActionPull) ==>
+//@             result == holdsRepo(s, r.Resource, 2)
+//@   ensures[repository-push] !s.unlimited && r != CatalogScope && isRepoAction(r, ActionPush) ==>
+//@             result == holdsRepo(s, r.Resource, 4)
+//@   ensures[other] !s.unlimited && r != CatalogScope && !isRepoAction(r, ActionPull) && !isRepoAction(r, ActionPush) ==>
+//@             result == holdsOther(s, r)
+
+//@ func (Scope).Equal
+//@   strings atom
+//@   bytes bv
+//@   modifies nothing
+//@   ensures[same-representation] result == (s1.unlimited == s2.unlimited &&
+//@     len(s1.repositories) == len(s2.repositories) && len(s1.actions) == len(s2.actions) && len(s1.others) == len(s2.others) &&
+//@     (forall i int :: 0 <= i && i < len(s1.repositories) ==> s1.repositories[i] == s2.repositories[i]) &&
+//@     (forall i int :: 0 <= i && i < len(s1.actions) ==> s1.actions[i] == s2.actions[i]) &&
+//@     (forall i int :: 0 <= i && i < len(s1.others) ==> s1.others[i] == s2.others[i]))
+
+//@ func (Scope).Len
+//@   bytes bv
+//@   modifies nothing
+//@   requires !s.unlimited
+//@   ensures result >= len(s.others)
 
 //@ func ScopeFromContext
 //@   modifies nothing
@@ -31,10 +109,22 @@ package ociauth
 //@   modifies nothing
 //@   ensures result != nil
 
-// NewScope and Iter are used opaquely by callers until their functional
-// contracts (C09) are in place: no effect on the caller's heap.
 //@ func NewScope
+//@   strings atom
+//@   bytes bv
 //@   modifies nothing
+//@   ensures[well-formed] wf(result)
+//@   ensures[not-unlimited] !result.unlimited
+//@   loop 0 invariant 0 - 1 <= rangeindex && rangeindex < len(rss)
+//@   loop 0 invariant !s.unlimited && len(s.actions) == len(s.repositories)
+//@   loop 0 invariant forall i, j int :: 0 <= i && i < j && j < len(s.repositories) ==> s.repositories[i] < s.repositories[j]
+//@   loop 0 invariant forall i int :: 0 <= i && i < len(s.actions) ==> s.actions[i] != 0 && s.actions[i] & 249 == 0
+//@   loop 0 invariant forall i int :: 0 <= i && i < len(s.actions) ==> (s.repositories[i] == "" ==> s.actions[i] == 2)
+//@   loop 0 invariant forall i int :: 0 <= i && i < len(s.others) ==> !s.others[i].isKnown()
+//@   loop 0 invariant len(s.repositories) > 0 ==>
+//@     exists m int :: 0 <= m && m <= rangeindex && rss[m].isKnown() &&
+//@       ((rss[m] == CatalogScope && s.repositories[len(s.repositories)-1] == "") ||
+//@        (rss[m].ResourceType == TypeRepository && rss[m].Resource == s.repositories[len(s.repositories)-1]))
 
 //@ func (Scope).Iter
 //@   modifies nothing
